@@ -557,34 +557,59 @@ func c14ExploreN(t *engine.T, sc c14Scenario, nthreads int) {
 		est *= n
 		fact *= float64(b + 1)
 	}
+	// iterative context bounding under a wall-clock budget: bounds 1..bound are completed one after the other; a bound
+	// that does not finish in time is cut short (the run is then reported as not exhaustive for that bound)
+	limit := 150 * time.Second
+	if t.Thorough {
+		limit = 240 * time.Second
+	}
 	t.Case(fmt.Sprintf("schedules %s threads=%d preemption-bound=%d (default schedule has %d points)", sc.name, nthreads, bound, len(x.Points)), true, func() (string, *engine.Fail) {
 		vtick.Reset(vtick.Off)
 		var res, want []c14Res
 		var cleanup func()
-		st, fail, schedule := sched.Explore(func() []func() {
+		start := time.Now()
+		done := 0
+		first := bound
+		if t.Thorough && bound > 1 {
+			first = 1
+		}
+		for b := first; b <= bound; b++ {
+			sched.Deadline = start.Add(limit)
+			st, fail, schedule := sched.Explore(func() []func() {
+				if cleanup != nil {
+					cleanup()
+				}
+				var b []func()
+				b, res, want, cleanup = sc.setup(nthreads)
+				return b
+			}, b, 0, 1<<20, func(x *sched.Exec, s []int) string {
+				for i := range res {
+					if res[i] != want[i] {
+						return fmt.Sprintf("thread %d returned %+v, alone it returns %+v", i, res[i], want[i])
+					}
+				}
+				return ""
+			})
+			sched.Deadline = time.Time{}
 			if cleanup != nil {
 				cleanup()
+				cleanup = nil
 			}
-			var b []func()
-			b, res, want, cleanup = sc.setup(nthreads)
-			return b
-		}, bound, 0, 1<<20, func(x *sched.Exec, s []int) string {
-			for i := range res {
-				if res[i] != want[i] {
-					return fmt.Sprintf("thread %d returned %+v, alone it returns %+v", i, res[i], want[i])
-				}
+			t.State(st.Points)
+			t.Edge(st.Points)
+			t.Count("schedules_explored", int64(st.Schedules))
+			t.Trace(int64(st.Schedules))
+			if fail != "" {
+				return "", engine.Failf("schedule", "%s; schedule (choice at each scheduling point, 0 = keep running): %v", fail, compactSchedule(schedule))
 			}
-			return ""
-		})
-		if cleanup != nil {
-			cleanup()
+			if st.Truncated {
+				t.MarkIncomplete("schedule_explorations_cut_by_deadline")
+				break
+			}
+			done = b
 		}
-		t.State(st.Points)
-		t.Edge(st.Points)
-		t.Count("schedules_explored", int64(st.Schedules))
-		t.Trace(int64(st.Schedules))
-		if fail != "" {
-			return "", engine.Failf("schedule", "%s; schedule (choice at each scheduling point, 0 = keep running): %v", fail, compactSchedule(schedule))
+		if done < bound {
+			return fmt.Sprintf("all-schedules-ok(bound=%d; bound %d cut short by the %v budget)", done, done+1, limit), nil
 		}
 		return fmt.Sprintf("all-schedules-ok(bound=%d)", bound), nil
 	})
